@@ -224,6 +224,14 @@ def run_concrete(stmts, env, events, notes, depth=0, workers=(), resolver=None, 
                         return avals[2] if len(avals) == 3 else Desc(key_)
                 if f.id == "len" and len(avals) == 1 and isinstance(avals[0], Seq):
                     return avals[0].length
+                if f.id in ("divmod", "min", "max", "abs", "int", "range", "sum", "round", "bool") and not kvals and avals and all(
+                        isinstance(a, (int, float, bool)) and not isinstance(a, Desc) for a in avals):
+                    try:
+                        import builtins as _b
+                        r_ = getattr(_b, f.id)(*avals)
+                        return list(r_) if f.id == "range" else r_
+                    except Exception as ex:
+                        raise NotConst(str(ex))
                 if f.id == "len" and len(avals) == 1 and isinstance(avals[0], Ref):
                     return Desc("len(%r)" % avals[0])
                 if f.id == "enumerate" and avals and isinstance(avals[0], (list, tuple)):
